@@ -156,6 +156,9 @@ func checkStatement(src []byte, st Stream, comments bool) (sig, detail string) {
 // first non-blank byte after the extent of the last returned token (structural, no message text).
 func lexemeStart(src []byte, st Stream) string {
 	i := 0
+	if len(src) >= 3 && src[0] == 0xEF && src[1] == 0xBB && src[2] == 0xBF {
+		i = 3 // initial BOM
+	}
 	for _, t := range st.Toks {
 		if e, _, _ := extentOf(src, t); e > i {
 			i = e
@@ -213,7 +216,7 @@ func driftSig(d string, model, real []Tok) (string, string) {
 			what = "off"
 		}
 	}
-	return fmt.Sprintf("model-%s: prev=%s model=%s code=%s (%s)", d, kindAt(real, i-1), mk, rk, what),
+	return fmt.Sprintf("model-%s: model=%s code=%s (%s)", d, mk, rk, what),
 		fmt.Sprintf("token %d: model %v, code %v", i, tokAt(model, i), tokAt(real, i))
 }
 
